@@ -216,8 +216,10 @@ where
         //
         let counter = HashMap::<u64, u64>::new();
         //
-        let mut rng = ThreadRng::default();
-        let seed = rng.next_u64();
+        let rng = ThreadRng::default();
+        // fixed default seed so that two instances (or two runs) hash the same data to the same signature.
+        // Use change_rng_seed to get another sequence
+        let seed: u64 = 0xcf7355744a6e8145;
         //
         ProbOrdMinHash2 {
             m,
